@@ -208,6 +208,10 @@ def main():
         'band around the LRT cut-off; scipy.stats.chi2 is real there (p_value: recorder + 5 concrete anchors)',
     ]
     run_obligations(run, obs, confirm=confirm)
+    # concrete companion (sampling, not a solver verdict; the statistics clause is not claimed): resampling / diagnostic
+    # statistics on fixed synthetic estimates vs their defining formulas in plain Python arithmetic
+    from xhair import run_probes
+    run_probes(run, [(Ob('statistics', 'C19_stats.py', 'statistics', env={}), 'statistics()')])
     for o in obs:
         if o.kind == 'prop':
             run.sample(dict(obligation=o.name, harness=o.file, func=o.func, env=o.env), cap=10)
